@@ -166,11 +166,14 @@ def _cast(v, t):
 def numeric_types(zm, z0, ws, ustar, L, sigma_v, types, dom, res, mxy):
     """'given as integers or floats alike': integral values passed as int / numpy integers."""
     from bldfm.ffm_kormann_meixner import estimateFootprint
+    import warnings
     vals = dict(zm=zm, z0=z0, ws=ws, ustar=ustar, L=L, sigma_v=sigma_v)
     args = {k: _cast(v, types.get(k, "float")) for k, v in vals.items()}
     p = km_params(zm, z0, ws, ustar, L)
-    gx, gy, ffm = estimateFootprint(args["zm"], args["z0"], args["ws"], args["ustar"], args["L"],
-                                    args["sigma_v"], dom, res, mxy)
+    with warnings.catch_warnings():
+        warnings.simplefilter("ignore")
+        gx, gy, ffm = estimateFootprint(args["zm"], args["z0"], args["ws"], args["ustar"],
+                                        args["L"], args["sigma_v"], dom, res, mxy)
     want = km_cells(p, sigma_v, gx - mxy[0], gy - mxy[1], res)
     ints = sorted(k for k, t in types.items() if t.startswith("int"))
     key = "integer-zm-truncation" if "zm" in ints else "integer-%s" % "+".join(ints or ["none"])
@@ -302,9 +305,13 @@ def z0_rotation(seed, nobs, half_win, shift):
     L = rs.choice([-1.0, 1.0], nobs) * np.exp(rs.uniform(np.log(10), np.log(1e5), nobs))
     ws = rs.uniform(1.0, 9.0, nobs)
     wd = rs.randint(0, 360 * 8, nobs) / 8.0             # exact binary fractions of a degree
-    a = np.asarray(estimateZ0(zm, ws, wd.copy(), ustar, L, half_wd_win=half_win), dtype=float)
+    import warnings
     wd2 = (wd + shift) % 360.0
-    b = np.asarray(estimateZ0(zm, ws, wd2.copy(), ustar, L, half_wd_win=half_win), dtype=float)
+    with warnings.catch_warnings():
+        warnings.simplefilter("ignore")        # nanmedian of an empty window
+        a = np.asarray(estimateZ0(zm, ws, wd.copy(), ustar, L, half_wd_win=half_win), dtype=float)
+        b = np.asarray(estimateZ0(zm, ws, wd2.copy(), ustar, L, half_wd_win=half_win),
+                       dtype=float)
     same_nan = np.array_equal(np.isnan(a), np.isnan(b))
     ok = same_nan and np.allclose(a[~np.isnan(a)], b[~np.isnan(b)], rtol=1e-12, atol=0.0)
     if not ok:
